@@ -340,6 +340,8 @@ fn case_cov(ctx: &Ctx, shard: usize, index: u64, rep: &mut Report, cov: &mut Cov
             return;
         }
     };
+    // the source of each following picture may hand out only a few bytes per read call
+    dec.chunk = *rng.pick(&[usize::MAX, usize::MAX, usize::MAX, 1, 3, 16, 500]);
     let chain = 1 + rng.below(3) as usize;
     let mut fp = fnv64(&ref_bytes);
     let mut nontrivial = false;
